@@ -254,14 +254,32 @@ func (p *printer) userType(t *spec.UserType) {
 }
 
 func (p *printer) objectBody(t *spec.Type) {
+	skipReq := map[string]bool{}
 	for _, a := range t.Attrs {
+		if a.InhReq {
+			skipReq[a.Name] = true
+		}
+		switch a.Inherit {
+		case "extend":
+			continue // merged in by Extend(base)
+		case "reference":
+			// type, validations, default and description come from Reference(base)
+			if a.Tag > 0 {
+				p.ln("Field(%d, %s)", a.Tag, q(a.Name))
+			} else {
+				p.ln("Attribute(%s)", q(a.Name))
+			}
+			continue
+		}
 		p.attribute(a)
 	}
-	if len(t.Required) > 0 {
-		qs := make([]string, len(t.Required))
-		for i, r := range t.Required {
-			qs[i] = q(r)
+	var qs []string
+	for _, r := range t.Required {
+		if !skipReq[r] {
+			qs = append(qs, q(r))
 		}
+	}
+	if len(qs) > 0 {
 		p.ln("Required(%s)", strings.Join(qs, ", "))
 	}
 }
